@@ -276,6 +276,9 @@ def _flatten_dofs(S: Optional[DofsCollection]) -> Optional[ndarray]:
     if S is None:
         return None
     if isinstance(S, ndarray):
+        if S.size == 0:
+            # np.array([]) is an array of floats
+            return S.astype(np.int32)
         # remove repeated indices but keep the order
         _, ix = np.unique(S, return_index=True)
         return S[np.sort(ix)]
